@@ -125,7 +125,11 @@ class LeakyReLU(Transform):
             raise ValueError("Slope must be positive.")
         super().__init__()
         self.negative_slope = negative_slope
-        self.log_negative_slope = torch.log(torch.as_tensor(self.negative_slope))
+        # A zero-dimensional double tensor: keeps full precision for double inputs and does
+        # not change the dtype of single-precision results.
+        self.log_negative_slope = torch.log(
+            torch.as_tensor(self.negative_slope, dtype=torch.float64)
+        )
 
     def forward(self, inputs, context=None):
         outputs = F.leaky_relu(inputs, negative_slope=self.negative_slope)
